@@ -117,11 +117,48 @@ def coq_make(targets, timeout=3000):
     return rc, o
 
 
-def coqc_file(path, timeout=1200):
-    """Compile a stand-alone file (case file / diagnostics) against the built model."""
-    rc, o, dt = sh(['coqc', '-Q', COQ, 'Cose', '-w', '-notation-overridden,-deprecated-hint-without-locality', path],
+def coqc_file(path, timeout=1200, root=None):
+    """Compile a stand-alone file (case file / diagnostics) against the built model (or the reference build)."""
+    rc, o, dt = sh(['coqc', '-Q', root or COQ, 'Cose', '-w', '-notation-overridden,-deprecated-hint-without-locality', path],
                    cwd=os.path.dirname(path), timeout=timeout)
     return rc, o, dt
+
+
+COQ_REF = os.path.join(BUILD, 'coq_ref')
+
+
+def ensure_coq_ref():
+    """The reference build: the Coq development with Gen/ taken from gen_baseline/ (the facts and function bodies
+    regenerated from the pinned source, for which every proof checks). When the working tree no longer passes the
+    proofs, a correspondence mismatch is judged against this build: the implementation disagreeing with the model that
+    IS proved to satisfy the property is a concrete failing input; agreeing with it (a refactoring the translator does
+    not follow) is not. Rebuilt only when the hand-written sources or gen_baseline change. Returns True when usable."""
+    import hashlib
+    h = hashlib.sha256()
+    files = [f for f in sorted(glob.glob(os.path.join(COQ, '**', '*.v'), recursive=True))
+             if os.sep + 'Gen' + os.sep not in f and os.sep + 'Diag' + os.sep not in f]
+    files += sorted(glob.glob(os.path.join(VERIF, 'gen_baseline', '*.v'))) + [os.path.join(COQ, '_CoqProject')]
+    for f in files:
+        h.update(os.path.relpath(f, VERIF).encode())
+        h.update(open(f, 'rb').read())
+    stamp = h.hexdigest()
+    sp = os.path.join(COQ_REF, '.stamp')
+    with Lock('coqref'):
+        if os.path.exists(sp) and open(sp).read() == stamp:
+            return True
+        os.makedirs(COQ_REF, exist_ok=True)
+        sh(['rsync', '-a', '--delete', '--exclude', '*.vo', '--exclude', '*.vos', '--exclude', '*.vok', '--exclude', '*.glob', '--exclude', '*.aux',
+            '--exclude', 'Makefile.coq*', '--exclude', '.stamp', '--exclude', '.lia.cache', COQ + '/', COQ_REF + '/'])
+        for f in glob.glob(os.path.join(VERIF, 'gen_baseline', '*.v')):
+            shutil.copy(f, os.path.join(COQ_REF, 'Gen', os.path.basename(f)))
+        rc, o, _ = sh(['coq_makefile', '-f', '_CoqProject', '-o', 'Makefile.coq'], cwd=COQ_REF)
+        if rc == 0:
+            rc, o, _ = sh(['make', '-f', 'Makefile.coq', '-j%d' % NCPU], cwd=COQ_REF, timeout=7200)
+        if rc != 0:
+            log('reference build failed:\n' + o[-1500:])
+            return False
+        open(sp, 'w').write(stamp)
+    return True
 
 
 def harness_build():
@@ -439,6 +476,7 @@ AXIOMS_ALLOWED = []
 def correspond(run, stream, hargs, timeout=1800, reference_theorem=None):
     """Step 3: harness writes <stream>_cases.v (observed outcomes); Coq evaluates the model on the
     same inputs and prints the mismatching case indices."""
+    proofs_broken = any(str(b.get('what', '')).startswith(('proof ', 'translator', 'coq build', 'theorem ', 'hygiene')) for b in run.broken)
     os.makedirs(run.outdir, exist_ok=True)
     rc, o, dt = run_harness([stream, '-seed', str(run.seed), '-tier', run.tier, '-out', run.outdir] + hargs, timeout=timeout)
     meta_p = os.path.join(run.outdir, stream + '.json')
@@ -460,9 +498,11 @@ def correspond(run, stream, hargs, timeout=1800, reference_theorem=None):
         return cf, coqc_file(os.path.join(run.outdir, cf), timeout=timeout)
     with ThreadPoolExecutor(max_workers=min(12, max(1, len(cfs)))) as ex:
         results = list(ex.map(one, cfs))
+    unevaluated = []
     for cf, (rc, out, dt) in results:
         if rc != 0:
             run.broke('correspondence %s: case file %s does not evaluate' % (stream, cf), out[-1500:])
+            unevaluated.append(cf)
             continue
         m = re.search(r'MISMATCHES\s*=\s*(\[[^\]]*\])', out.replace('\n', ' '))
         if not m:
@@ -471,16 +511,39 @@ def correspond(run, stream, hargs, timeout=1800, reference_theorem=None):
         idx = [int(x) for x in re.findall(r'\d+', m.group(1))]
         for i in idx:
             mism.append((cf, i))
+    # when the proofs of this run do not hold (or the regenerated model does not even evaluate), the mismatches are judged
+    # against the reference build (ensure_coq_ref): only a disagreement with THAT model is a claim about the implementation
+    ref_mism = None
+    if reference_theorem and (proofs_broken or unevaluated) and (mism or unevaluated) and ensure_coq_ref():
+        ref_mism = set()
+        rd = os.path.join(run.outdir, 'ref_' + stream)
+        os.makedirs(rd, exist_ok=True)
+        todo = sorted(set([cf for cf, _ in mism] + unevaluated))
+
+        def one_ref(cf):
+            shutil.copy(os.path.join(run.outdir, cf), os.path.join(rd, cf))
+            return cf, coqc_file(os.path.join(rd, cf), timeout=timeout, root=COQ_REF)
+        with ThreadPoolExecutor(max_workers=min(12, max(1, len(todo)))) as ex:
+            for cf, (rc, out, dt) in ex.map(one_ref, todo):
+                m = re.search(r'MISMATCHES\s*=\s*(\[[^\]]*\])', out.replace('\n', ' ')) if rc == 0 else None
+                if m:
+                    for i in re.findall(r'\d+', m.group(1)):
+                        ref_mism.add((cf, int(i)))
+        for cf, i in sorted(ref_mism):
+            if (cf, i) not in mism:
+                mism.append((cf, i))
     cases = meta.get('cases', {})
     for cf, i in mism:
         c = cases.get(cf, [])
         line = c[i] if i < len(c) else '?'
         run.broke('correspondence %s: model and implementation differ' % stream, 'case %s#%d: %s' % (cf, i, line))
-        if reference_theorem:
+        if reference_theorem and (ref_mism is not None and (cf, i) in ref_mism or ref_mism is None and not proofs_broken):
             # the model side of this stream is the proved reference value: a disagreement is a concrete input on
-            # which the implementation's output is not the reference
+            # which the implementation's output is not the reference (only while every proof of this run holds: a model
+            # regenerated from source the translator no longer understands is not a reference, and a disagreement with
+            # it is reported as the broken correspondence it is, without a claim about the implementation)
             run.fail(source='correspondence:' + stream, op=stream + '-reference', what='implementation output differs from the proved reference',
-                     input=line, observed='see the case line (observed outcome recorded by the harness)', expected='the value of the Coq reference model on the same input',
+                     input=line, observed='see the case line (observed outcome recorded by the harness)', expected='the value of the Coq reference model on the same input' + (' (reference build: the model instantiated from the pinned source, for which every proof checks)' if ref_mism is not None else ''),
                      case=line, theorem=reference_theorem)
         run.notes.setdefault('mismatches', []).append({'stream': stream, 'file': cf, 'index': i, 'case': line})
     run.notes.setdefault('correspondence', {})[stream] = {'cases': meta.get('evaluations', 0), 'mismatches': len(mism)}
@@ -591,6 +654,8 @@ def setup():
     bad = hygiene()
     if bad:
         log('setup: hygiene: ' + '; '.join(bad))
+        return 1
+    if not gen_diff_vs_baseline() and not ensure_coq_ref():
         return 1
     log('setup ok in %.0fs' % (time.time() - t0))
     return 0
